@@ -419,8 +419,10 @@ fn tfk_uf(k: &[u8; 32], salt: Option<&[u8]>) -> Id {
 }
 
 //@ ob: C02.O4i
-//@ tier: thorough
-//@ cap: 2400
+//@ tier: quick
+//@ cap: 800
+//@ rss: 11.7
+//@ time: 179
 //@ mem: 24
 //@ unwindset_raw: memcmp.0:22
 //@ standins: tracing lru vcoll
@@ -592,8 +594,10 @@ fn mutable_glue(with_salt: bool) {
 
 
 //@ ob: C02.O4m
-//@ tier: thorough
-//@ cap: 2400
+//@ tier: quick
+//@ cap: 800
+//@ rss: 13.7
+//@ time: 302
 //@ mem: 24
 //@ unwindset_raw: memcmp.0:66
 //@ standins: tracing lru vcoll
@@ -620,8 +624,10 @@ fn c02_o4m_mutable_glue_probed() {
 }
 
 //@ ob: C02.O4n
-//@ tier: thorough
-//@ cap: 2400
+//@ tier: quick
+//@ cap: 800
+//@ rss: 14.0
+//@ time: 306
 //@ mem: 24
 //@ unwindset_raw: memcmp.0:66
 //@ standins: tracing lru vcoll
@@ -670,8 +676,10 @@ fn from_dht_message_contract_rec(target: Id, key: &[u8], v: Box<[u8]>, seq: i64,
 }
 
 //@ ob: C02.O4s
-//@ tier: thorough
-//@ cap: 2400
+//@ tier: quick
+//@ cap: 800
+//@ rss: 6.0
+//@ time: 70
 //@ mem: 24
 //@ unwindset_raw: memcmp.0:66
 //@ standins: tracing lru vcoll
@@ -735,8 +743,10 @@ fn c02_o4s_signed_peers_glue_probed() {
 }
 
 //@ ob: C07.O5p
-//@ tier: thorough
-//@ cap: 2400
+//@ tier: quick
+//@ cap: 800
+//@ rss: 12.0
+//@ time: 320
 //@ mem: 24
 //@ unwindset_raw: memcmp.0:22
 //@ standins: tracing lru vcoll
